@@ -154,7 +154,9 @@ class wind(PseudoNetCDFFile):
         self.rffile.next()
         nlayers = 0
         while not self.rffile.record_size == self.time_hdr_size:
-            self.rffile.next()
+            if not self.rffile.next():
+                raise IOError('wind file ends before a second time ' +
+                              'record: the time step cannot be derived')
             nlayers += 1
 
         self.nlayers = (nlayers - 1) // 2
